@@ -60,6 +60,8 @@ def generate(tier, seed, shard, nshards):
             ctor = ALL_CTORS[k % len(ALL_CTORS)] if j == 0 else rng.choice(ALL_CTORS)
             k += 1
             a, b = rng.sample(nl, 2)
+            if j > 0 and rng.random() < 0.08 and ctor in ('resistor', 'conductance', 'impedance', 'admittance', 'capacitor', 'inductance', 'lamp', 'resistive_load'):
+                b = a                       # a component bridged out by its own terminals is still a component: one branch, same id
             lo = rng.randint(0, 3)
             c = GC.make_component(rng, ctor, ids[j], a, b, (lo, lo + 2), None, lossy=0.5)
             classes.append(edge_values(rng, c))
